@@ -83,8 +83,8 @@ func DeadTail(p *core.Prog, r *core.Report) {
 				leaves = true
 			case *ssa.Jump:
 				_ = t
-				if taken.Succs[0].Dominates(b) {
-					leaves = true // back to the head of the loop: `continue`
+				if len(taken.Instrs) == 1 && taken.Succs[0].Dominates(b) {
+					leaves = true // nothing but the jump back to the head of the loop: `continue`
 				}
 			}
 			if !leaves {
